@@ -20,12 +20,15 @@ package c15
 import (
 	"encoding/json"
 	"fmt"
+	"math/big"
 	"reflect"
 	"sort"
+	"strconv"
 	"strings"
 	"sync"
 
 	"ariga.io/atlas/schemahcl"
+	"ariga.io/atlas/sql/postgres"
 	"ariga.io/atlas/sql/schema"
 	"verifharness/rt"
 )
@@ -113,14 +116,45 @@ func usedRules(xs ...*descr) []string {
 	return out
 }
 
+// invalidType reports grid points that are not types of the dialect at all (the server rejects them), so
+// the property does not claim anything about them.
+func invalidType(d *dialect, tc TypeCase) string {
+	if d.name != "postgres" {
+		return ""
+	}
+	arg := func(k string) (int, bool) {
+		for _, a := range tc.Args {
+			if a.K == k && a.I != nil {
+				return *a.I, true
+			}
+		}
+		return 0, false
+	}
+	if tc.Src == "hcl" {
+		sp := specByName(d, tc.Spec)
+		// interval fields take a precision of 0..6 only (postgres/convert.go reInterval: `(?:\(([0-6])\))?`).
+		if p, ok := arg("precision"); ok && sp != nil && sp.FromSpec != nil && p > 6 {
+			return "invalid-type:interval-precision>6"
+		}
+		// bit(0) / bit varying(0): "length for type bit must be at least 1".
+		if l, ok := arg("len"); ok && l == 0 {
+			return "invalid-type:bit-length-0"
+		}
+	}
+	return ""
+}
+
 func typeLeg(d *dialect, cs *Case) verdict {
 	tc := *cs.Type
+	if why := invalidType(d, tc); why != "" {
+		return verdict{ood: why}
+	}
 	t, err := buildType(d, tc, nil)
 	if err != nil {
 		return verdict{ood: "type-rejected-by-atlas"}
 	}
 	f1, err := d.format(t)
-	if err != nil {
+	if err != nil || !formattable(d, t) {
 		return verdict{ood: "type-not-formattable"}
 	}
 	gt := fmt.Sprintf("%T", t)
@@ -135,6 +169,15 @@ func typeLeg(d *dialect, cs *Case) verdict {
 	f2, err := d.format(t2)
 	if err != nil || f2 != f1 {
 		v.key = fmt.Sprintf("C15|%s|fixpoint|%s", d.name, shortType(gt))
+		if d.name == "mysql" && (strings.HasPrefix(f1, "enum(") || strings.HasPrefix(f1, "set(")) {
+			for _, a := range tc.Args {
+				for _, val := range a.S {
+					if strings.Contains(val, "'") {
+						v.key = fmt.Sprintf("C15|%s|fixpoint|enum-value-quote", d.name)
+					}
+				}
+			}
+		}
 		v.what = fmt.Sprintf("FormatType(ParseType(FormatType(t))) = %q (err=%v) but FormatType(t) = %q for %s", f2, err, f1, tc)
 		v.detail["format2"] = f2
 		return v
@@ -183,7 +226,7 @@ func typeLeg(d *dialect, cs *Case) verdict {
 		v.what = fmt.Sprintf("a zero %q parameter is lost by the HCL type conversion: %s is %s, comes back as %s", attr, tc, an, bn)
 		return v
 	}
-	v.key = fmt.Sprintf("C15|%s|registry|%s", d.name, shortType(gt))
+	v.key = fmt.Sprintf("C15|%s|desc|%s", d.name, descClass("table.column.type", an, bn))
 	v.what = fmt.Sprintf("TypeRegistry.Type(Convert(t)) is not t for %s: want %s, got %s", tc, an, bn)
 	return v
 }
@@ -203,6 +246,17 @@ func pgTimeDefault(t schema.Type, ht *schemahcl.Type) {
 	}
 	p := 6
 	tt.Precision = &p
+}
+
+// formattable: FormatType accepts the type and, for an array, its element type.
+func formattable(d *dialect, t schema.Type) bool {
+	if _, err := d.format(t); err != nil {
+		return false
+	}
+	if a, ok := t.(*postgres.ArrayType); ok && a.Type != nil {
+		return formattable(d, a.Type)
+	}
+	return true
 }
 
 func shortType(gt string) string {
@@ -312,6 +366,49 @@ func trunc(s string, n int) string {
 }
 
 func schemaLeg(d *dialect, cs *Case) verdict {
+	if cs.Type != nil {
+		if why := invalidType(d, *cs.Type); why != "" {
+			return verdict{ood: why}
+		}
+	}
+	v := schemaLeg1(d, cs)
+	if v.key != "" {
+		// root-cause class: an HCL template sequence in a string that MarshalHCL writes with strconv.Quote.
+		if el := templateElement(cs); el != "" && (strings.Contains(v.key, "|eval-error|") || strings.Contains(v.key, ".type|") || strings.Contains(v.key, "|desc|table.index")) {
+			v.what = "HCL template sequence (${ or %{) in " + el + " is written unescaped: " + v.what
+			v.key = fmt.Sprintf("C15|%s|hcl-template-unescaped|%s", d.name, el)
+			v.more = nil
+		}
+	}
+	return v
+}
+
+// templateElement names the element of the case that carries "${" or "%{" in a place Atlas prints with
+// strconv.Quote instead of HCL escaping ("" if none).
+func templateElement(cs *Case) string {
+	has := func(s string) bool { return strings.Contains(s, "${") || strings.Contains(s, "%{") }
+	if cs.Type != nil {
+		for _, a := range cs.Type.Args {
+			for _, v := range a.S {
+				if has(v) {
+					return "enum-value"
+				}
+			}
+		}
+	}
+	if cs.Schema != nil {
+		for _, t := range cs.Schema.Tables {
+			for _, i := range t.Idx {
+				if has(i.Where) {
+					return "index-where"
+				}
+			}
+		}
+	}
+	return ""
+}
+
+func schemaLeg1(d *dialect, cs *Case) verdict {
 	k := kinds{}
 	s1, err := Build(cs.Schema, k)
 	if err != nil {
@@ -319,7 +416,7 @@ func schemaLeg(d *dialect, cs *Case) verdict {
 	}
 	for _, t := range s1.Tables {
 		for _, c := range t.Columns {
-			if _, err := d.format(c.Type.Type); err != nil {
+			if !formattable(d, c.Type.Type) {
 				return verdict{ood: "type-not-formattable"}
 			}
 		}
@@ -344,11 +441,18 @@ func schemaLeg(d *dialect, cs *Case) verdict {
 		v.key = fmt.Sprintf("C15|%s|eval-error|%s", d.name, errClass(err))
 		v.what = "EvalHCLBytes rejects the output of MarshalHCL: " + err.Error()
 		if cs.Type != nil && strings.Contains(err.Error(), "Not enough function arguments") {
+			zk := ""
 			for _, a := range cs.Type.Args {
 				if a.I != nil && *a.I == 0 {
-					v.key = fmt.Sprintf("C15|%s|zero-%s", d.name, a.K)
-					v.what = fmt.Sprintf("a zero %q parameter is lost by MarshalHCL and the result no longer evaluates: %s: %v", a.K, cs.Type, err)
+					zk = a.K
 				}
+			}
+			if cs.Type.Src == "parse" && strings.Contains(cs.Type.Text, "(0)") {
+				zk = "size"
+			}
+			if zk != "" {
+				v.key = fmt.Sprintf("C15|%s|zero-%s", d.name, zk)
+				v.what = fmt.Sprintf("a zero %q parameter is lost by MarshalHCL and the result no longer evaluates: %s: %v", zk, cs.Type, err)
 			}
 		}
 		return v
@@ -362,8 +466,20 @@ func schemaLeg(d *dialect, cs *Case) verdict {
 		na, nb := describe(d, s1, true), describe(d, s2, true)
 		if path, a, b := firstDiff(na.lines, nb.lines); path != "" {
 			descKey = fmt.Sprintf("C15|%s|desc|%s", d.name, descClass(path, a, b))
-			descWhat = fmt.Sprintf("descriptor differs after the round trip at %s: before %s, after %s", path, a, b)
-			v.detail["path"], v.detail["before"], v.detail["after"] = path, a, b
+			sa, sb := lineAt(da.lines, path), lineAt(db.lines, path)
+			descKey = fmt.Sprintf("C15|%s|desc|%s", d.name, descClass(path, sa, sb))
+			if strings.HasSuffix(path, ".attrs") {
+				// one key per attribute type of the delta (of the normalised sets).
+				pc := pathClass(path)
+				ns := strings.Split(attrDelta(a, b), ",")
+				descKey = fmt.Sprintf("C15|%s|desc|%s|%s", d.name, pc, ns[0])
+				for _, n := range ns[1:] {
+					v.more = append(v.more, fmt.Sprintf("C15|%s|desc|%s|%s", d.name, pc, n))
+				}
+			}
+			descWhat = fmt.Sprintf("descriptor differs after the round trip at %s: before %s, after %s", path, sa, sb)
+			v.detail["path"], v.detail["before"], v.detail["after"] = path, sa, sb
+			v.detail["before_normalised"], v.detail["after_normalised"] = a, b
 			if cs.Type != nil && strings.HasSuffix(path, ".type") {
 				if attr, ok := zeroAttrLost(d, *cs.Type, typeOnly(b)); ok {
 					descKey = fmt.Sprintf("C15|%s|zero-%s", d.name, attr)
@@ -377,6 +493,7 @@ func schemaLeg(d *dialect, cs *Case) verdict {
 	// (3) bytes.
 	var bytesWhat string
 	b2, err := d.marshal(s2)
+	remErr := err
 	switch {
 	case err != nil:
 		bytesWhat = "MarshalHCL fails on the evaluated schema: " + err.Error()
@@ -431,15 +548,32 @@ func schemaLeg(d *dialect, cs *Case) verdict {
 		}
 		v.key = fmt.Sprintf("C15|%s|diff|%s", d.name, names[0])
 		v.what = "descriptors agree but the differ reports changes: " + diffWhat
-		v.more = names[1:]
+		for _, n := range names[1:] {
+			v.more = append(v.more, fmt.Sprintf("C15|%s|diff|%s", d.name, n))
+		}
 	case bytesWhat != "":
-		v.key = fmt.Sprintf("C15|%s|bytes", d.name)
+		v.key = fmt.Sprintf("C15|%s|bytes|%s", d.name, bytesClass(string(b1), string(b2), remErr))
 		v.what = bytesWhat
 	}
 	if v.key != "" {
 		v.rules = nil
 	}
+	if descKey == "" {
+		// v.more may hold attr-delta keys only together with a descriptor key.
+		if diffWhat == "" {
+			v.more = nil
+		}
+	}
 	return v
+}
+
+func lineAt(lines []string, path string) string {
+	for _, l := range lines {
+		if p, v := splitLine(l); p == path {
+			return v
+		}
+	}
+	return "<absent>"
 }
 
 // typeOnly extracts the type descriptor out of a ".type" descriptor value (identity here; kept for clarity).
@@ -473,13 +607,62 @@ func descClass(path, a, b string) string {
 	pc := pathClass(path)
 	switch {
 	case strings.HasSuffix(pc, ".type"):
-		return pc + "|" + firstWord(a) + "->" + firstWord(b)
+		// Go type + base spelling of the type before the trip.
+		base := ""
+		if f := strings.SplitN(a, "\"", 3); len(f) == 3 {
+			base = f[1]
+			if i := strings.IndexAny(base, "(["); i >= 0 {
+				base = base[:i]
+			}
+		}
+		k := pc + "|" + shortType(firstWord(a)) + ":" + strings.TrimSpace(base)
+		if firstWord(a) != firstWord(b) {
+			k += "->" + shortType(firstWord(b))
+		}
+		return k
 	case strings.HasSuffix(pc, ".default"):
-		return pc + "|" + firstWord(a) + "->" + firstWord(b)
+		if numericLoss(a, b) {
+			return pc + "|numeric-precision-loss"
+		}
+		return pc + "|" + exprClass(a) + "->" + exprClass(b)
 	case strings.HasSuffix(pc, ".attrs"):
 		return pc + "|" + attrDelta(a, b)
 	}
 	return pc
+}
+
+// numericLoss: both rendered defaults are numeric literals of different value.
+func numericLoss(a, b string) bool {
+	val := func(s string) (*big.Rat, bool) {
+		if !strings.HasPrefix(s, "literal ") {
+			return nil, false
+		}
+		u, err := strconv.Unquote(strings.TrimPrefix(s, "literal "))
+		if err != nil || strings.ContainsAny(u, "/_ ") {
+			return nil, false
+		}
+		return new(big.Rat).SetString(u)
+	}
+	ra, oka := val(a)
+	rb, okb := val(b)
+	return oka && okb && ra.Cmp(rb) != 0
+}
+
+// exprClass: kind of a rendered default, with the lexical class of a literal.
+func exprClass(s string) string {
+	k := firstWord(s)
+	if k == "named" {
+		f := strings.SplitN(s, " ", 3)
+		if len(f) == 3 {
+			return "named:" + exprClass(f[2])
+		}
+	}
+	if k == "literal" {
+		if u, err := strconv.Unquote(strings.TrimPrefix(s, "literal ")); err == nil {
+			return "literal(" + literalClass(u) + ")"
+		}
+	}
+	return k
 }
 
 func firstWord(s string) string {
@@ -531,6 +714,33 @@ func attrDelta(a, b string) string {
 	return strings.Join(out, ",")
 }
 
+// bytesClass names the attribute on the first differing line of two HCL documents.
+func bytesClass(a, b string, err error) string {
+	if err != nil {
+		return "remarshal-error"
+	}
+	la, lb := strings.Split(a, "\n"), strings.Split(b, "\n")
+	for i := 0; i < len(la) || i < len(lb); i++ {
+		var x, y string
+		if i < len(la) {
+			x = la[i]
+		}
+		if i < len(lb) {
+			y = lb[i]
+		}
+		if x != y {
+			for _, l := range []string{x, y} {
+				f := strings.Fields(l)
+				if len(f) >= 2 && f[1] == "=" {
+					return f[0]
+				}
+			}
+			return "structure"
+		}
+	}
+	return "equal"
+}
+
 func lineDiff(a, b string) string {
 	la, lb := strings.Split(a, "\n"), strings.Split(b, "\n")
 	for i := 0; i < len(la) || i < len(lb); i++ {
@@ -579,6 +789,18 @@ func compose(base *Sch, fs ...feature) (s *Sch, ok bool) {
 			s, ok = nil, false
 		}
 	}()
+	nfk := 0
+	for _, f := range fs {
+		if f.Solo && len(fs) > 1 {
+			return nil, false
+		}
+		if strings.HasPrefix(f.Name, "fk.") {
+			nfk++ // foreign-key features use the same columns: they do not compose with each other.
+		}
+	}
+	if nfk > 1 {
+		return nil, false
+	}
 	s = base.clone()
 	for _, f := range fs {
 		f.Apply(s)
@@ -699,7 +921,7 @@ func run(c *rt.Ctx) {
 		if v.key != "" {
 			c.Violation(v.key, v.what, cs, v.detail)
 			for _, m := range v.more {
-				c.Violation(fmt.Sprintf("C15|%s|diff|%s", cs.Dialect, m), v.what, cs, v.detail)
+				c.Violation(m, v.what, cs, v.detail)
 			}
 			return
 		}
